@@ -591,3 +591,26 @@ func NullReuseStatements() []string {
 	}
 	return res
 }
+
+// RepeatedNameStatements lists statements that repeat a name inside one list
+// (ORDER BY / GROUP BY keys, projections, graphs), with and without aliases on
+// every projection, over patterns that have several rows.
+func RepeatedNameStatements() []string {
+	var res []string
+	for _, pat := range []string{`{ ?s "p"@[] ?o }`, `{ ?s ?p ?o }`, `{ ?s "n"@[] ?o . ?s "p"@[] ?x }`} {
+		for _, from := range []string{"?g1", "?gn, ?gm", "?g1, ?g1"} {
+			for _, ord := range []string{"?a, ?b, ?a", "?a DESC, ?b, ?a DESC", "?b, ?b", "?b ASC, ?a, ?b ASC, ?a", "?a, ?a, ?a"} {
+				res = append(res, fmt.Sprintf("SELECT ?s AS ?a, ?o AS ?b FROM %s WHERE %s ORDER BY %s;", from, pat, ord))
+				res = append(res, fmt.Sprintf("SELECT ?s AS ?a, ?o AS ?b FROM %s WHERE %s ORDER BY %s LIMIT \"3\"^^type:int64;", from, pat, ord))
+			}
+			res = append(res,
+				fmt.Sprintf("SELECT ?s, count(?o) AS ?n FROM %s WHERE %s GROUP BY ?s ORDER BY ?s, ?n, ?s;", from, pat),
+				fmt.Sprintf("SELECT ?s, count(?o) AS ?n FROM %s WHERE %s GROUP BY ?s, ?s ORDER BY ?n DESC, ?n DESC;", from, pat),
+				fmt.Sprintf("SELECT ?s AS ?k, count(?o) AS ?n, count(?o) AS ?m FROM %s WHERE %s GROUP BY ?k ORDER BY ?k, ?m, ?k HAVING ?n = ?m;", from, pat),
+				fmt.Sprintf("SELECT ?s, ?s AS ?t, ?o, ?o AS ?u FROM %s WHERE %s ORDER BY ?t, ?s, ?u, ?t;", from, pat),
+				fmt.Sprintf("SELECT ?s, ?o FROM %s WHERE %s ORDER BY ?s, ?o, ?s, ?o;", from, pat),
+			)
+		}
+	}
+	return res
+}
